@@ -742,3 +742,126 @@ Proof.
     cbn [out rst negb andb set_open set_now now topen handler deadline interval workers lock tasks].
     unfold restored, timer_back. repeat split; auto.
 Qed.
+
+(* ---------------- histories: several decorated calls on one connection object ---------------- *)
+Lemma user_handler_alarm s : user_handler s = true -> alarm s = None.
+Proof. unfold user_handler, alarm. destruct (handler s); auto; discriminate. Qed.
+
+Lemma restored_set_now m s t : restored m s (set_now t s).
+Proof. unfold restored, timer_back. destruct s; cbn. repeat split; auto. Qed.
+
+Lemma restored_keeps m s s' : restored m s s' -> keeps s s'.
+Proof. unfold restored, timer_back, keeps. intros (A & (B & _) & C & D & E). repeat split; auto. Qed.
+
+Lemma want_out_not_hang c : want_out c <> Hang.
+Proof. unfold want_out. destruct (h_leaf c); discriminate. Qed.
+
+(* a call with no limit whose one read the device answers: the call is its body *)
+Lemma zero_call m nt msg l s f o :
+  topen s = true -> user_handler s = true -> leaf_fin l (now s) None = Some (f, o) -> o <> Hang ->
+  let r := run_wrapped m true nt 0 msg l s in
+  out r = o /\ rst r = set_now f s.
+Proof.
+  intros Ho Hu Hf Hn r. subst r. unfold run_wrapped.
+  destruct (timeout_zero_disables m (mkC true nt 0 msg false 0 [] 0 false true) [l] s eq_refl eq_refl
+              (user_handler_alarm s Hu)) as [E1 E2].
+  assert (P : plain_seq [l] s 0 = mkR o (set_now f s)).
+  { cbn [plain_seq]. rewrite Ho. cbn [negb]. rewrite Hf. destruct o; reflexivity. }
+  rewrite P in E1, E2. cbn [out rst] in E1, E2. split; [exact E1 | apply E2; exact Hn].
+Qed.
+
+(* what ONE call does, from the call alone and the state it starts in *)
+Lemma call_spec m c s :
+  call_ok m c -> topen s = true -> user_handler s = true ->
+  let r := run_call m c s in
+  out r = want_out c /\ now (rst r) = now s + want_dur c /\ topen (rst r) = want_open c /\
+  restored m s (rst r).
+Proof.
+  destruct c as [w mt nt T msg l]. unfold call_ok, run_call, want_out, want_dur, want_open.
+  cbn [h_leaf h_T h_nt h_msg]. intros Hk Ho Hu.
+  destruct l as [d v | d e | | ].
+  - destruct Hk as [-> | Hd].
+    + destruct (zero_call m nt msg (Ret d v) s (now s + d) (Returned v) Ho Hu eq_refl) as [E1 E2];
+        [discriminate |]. cbn zeta. rewrite E1, E2. repeat split; auto.
+    + pose proof (completes_in_time m (mkC true nt T msg false 0 [] 0 false true) [Ret d v] s) as H.
+      cbn [c_rearm c_To c_Ti all_ret dur last_val] in H. rewrite N.add_0_r in H.
+      unfold run_wrapped. apply H; auto; try lia. unfold inner_eff. cbn. discriminate.
+  - destruct Hk as [-> | Hd].
+    + destruct (zero_call m nt msg (Exc d e) s (now s + d) (Raised (EOther e)) Ho Hu eq_refl) as [E1 E2];
+        [discriminate |]. cbn zeta. rewrite E1, E2. repeat split; auto.
+    + apply own_exception_propagates; auto; lia.
+  - destruct Hk as [HT Hm]. apply timeout_fires_single; auto.
+  - destruct Hk as [HT Hm]. apply timeout_fires_single; auto.
+Qed.
+
+(* the history theorem: on one connection object, whatever was run before -
+   (1) the mechanism of call n is select_mech of call n's own context,
+   (2) outcome, duration and the transport's state after call n are those the call alone prescribes (a call that
+       cannot complete raises ScrapliTimeout exactly at its own limit; one the device answers is left alone),
+   (3) handler, timer interval, workers, lock and tasks are after every call what they were before the first. *)
+Theorem hist_independent tc coro cls : forall calls s,
+  user_handler s = true ->
+  Forall (fun c => call_ok (call_mech tc coro cls c) c) calls ->
+  let rs := run_hist tc coro cls calls s in
+  map fst rs = map (call_mech tc coro cls) calls /\
+  map seen rs = want_hist calls (now s) /\
+  Forall (fun x => keeps s (rst (snd x))) rs.
+Proof.
+  induction calls as [|c r IH]; intros s Hu Hf; cbn zeta.
+  - cbn. repeat split; constructor.
+  - inversion Hf as [|c' r' Hc Hr]; subst. cbn [run_hist].
+    set (s1 := set_open true s).
+    assert (Ho1 : topen s1 = true) by reflexivity.
+    assert (Hu1 : user_handler s1 = true) by (unfold user_handler in *; destruct s; exact Hu).
+    assert (Hn1 : now s1 = now s) by reflexivity.
+    assert (K1 : keeps s s1) by (unfold keeps; destruct s; cbn; repeat split; reflexivity).
+    destruct (call_spec _ c s1 Hc Ho1 Hu1) as (E1 & E2 & E3 & E4). cbn zeta in *.
+    set (x := run_call (call_mech tc coro cls c) c s1) in *.
+    apply restored_keeps in E4.
+    assert (K : keeps s (rst x)).
+    { destruct K1 as (a1 & a2 & a3 & a4 & a5), E4 as (b1 & b2 & b3 & b4 & b5).
+      unfold keeps. repeat split; congruence. }
+    assert (Hm : match out x with Hang => [] | _ => run_hist tc coro cls r (rst x) end
+                 = run_hist tc coro cls r (rst x)).
+    { pose proof (want_out_not_hang c) as W. rewrite <- E1 in W. destruct (out x); congruence || reflexivity. }
+    rewrite Hm.
+    assert (Hux : user_handler (rst x) = true).
+    { destruct K as (a1 & _). unfold user_handler in *. rewrite a1. exact Hu. }
+    destruct (IH (rst x) Hux Hr) as (I1 & I2 & I3). cbn zeta in *.
+    cbn [map fst snd want_hist]. repeat split.
+    + rewrite I1. reflexivity.
+    + unfold seen at 1. cbn [snd]. rewrite E1, E2, E3, Hn1, I2, E2, Hn1. reflexivity.
+    + constructor; [exact K|].
+      eapply Forall_impl; [|exact I3]. intros y (b1 & b2 & b3 & b4 & b5).
+      destruct K as (a1 & a2 & a3 & a4 & a5). unfold keeps. repeat split; congruence.
+Qed.
+
+(* the premises are satisfiable by a history that changes thread between the calls, both ways, on a class name
+   on the signal side of the split, with a stall in the worker thread and one in the main thread *)
+Ltac ok_call :=
+  cbn; first [ right; lia | left; reflexivity
+             | split; [lia | intro; first [discriminate | split; reflexivity]] ].
+Definition hist_example : list hcall :=
+  [mkH false true false 100 [1] (Ret 5 1); mkH false false false 100 [1] StallClosed;
+   mkH false true true 50 [2] Stall; mkH false false false 0 [1] (Exc 3 4)].
+Example hist_premises :
+  user_handler s0 = true /\ Forall (fun c => call_ok (call_mech [[83]] false [80] c) c) hist_example
+  /\ map fst (run_hist [[83]] false [80] hist_example s0) = [MSignal; MThread; MSignal; MThread].
+Proof.
+  split; [reflexivity|]. split; [|vm_compute; reflexivity].
+  unfold hist_example. repeat (constructor; [ok_call|]). constructor.
+Qed.
+
+(* a selection kept on the object (worked out at the first call that has a limit) is NOT per call: main thread
+   first, then a worker thread - the second call runs under the signal mechanism, which select_mech does not
+   prescribe for a call issued outside the main thread *)
+Theorem cached_selection_differs :
+  exists tc cls calls s,
+    user_handler s = true /\ Forall (fun c => call_ok (call_mech tc false cls c) c) calls /\
+    map fst (run_hist_cached tc false cls None calls s) <> map (call_mech tc false cls) calls.
+Proof.
+  exists [[83]], [80], [mkH false true false 100 [1] (Ret 5 1); mkH false false false 100 [1] StallClosed], s0.
+  split; [reflexivity|]. split.
+  - repeat (constructor; [ok_call|]). constructor.
+  - vm_compute. discriminate.
+Qed.
